@@ -106,8 +106,12 @@ def gen_recomputes(rng, sessions, horizon):
 def make_malformed(rng, net, sessions, how):
     """turn a valid session set into one the simulator must reject (or that violates `valid`)"""
     sessions = [dict(s) for s in sessions]
+    arrivals = [s["arrival"] for s in sessions]
+    # prefer an offending plugin that does not share its timestamp with another plugin: which of several
+    # simultaneous plugins is processed first depends on heapq internals (C11) and such cases are skipped
+    lonely = [s for s in sessions if arrivals.count(s["arrival"]) == 1]
     if how == "unknown_station":
-        victim = rng.choice(sessions)
+        victim = rng.choice(lonely if lonely and rng.random() < 0.8 else sessions)
         victim["station"] = 777
     elif how == "overlap":
         base = rng.choice(sessions)
@@ -115,7 +119,8 @@ def make_malformed(rng, net, sessions, how):
         new = dict(base)
         new["sid"] = max(used) + 1
         lo, hi = base["arrival"], base["departure"] - 1
-        new["arrival"] = rng.randint(lo, hi)
+        free = [t for t in range(lo, hi + 1) if t not in arrivals]
+        new["arrival"] = rng.choice(free) if free and rng.random() < 0.8 else rng.randint(lo, hi)
         new["departure"] = new["arrival"] + rng.choice([1, 2, 5])
         new["est"] = None
         sessions.append(new)
